@@ -344,7 +344,20 @@ def check2(prop, tier, seed, plugin, report, driver, t0):
         for l in open(corpus):
             l = l.strip()
             if l and not l.startswith('#'): cases.append((l, 'corpus'))
-    for line, tag in plugin.cases(tier, rng):
+    # changed-source escalation: when a source file the property is anchored in differs from the copy the goldens were
+    # taken from, the quick tier explores with the thorough tier's generators (nothing changes on the unchanged tree)
+    gen_tier, changed = tier, []
+    try:
+        gold_src = json.load(open(os.path.join(LEAN, 'Golden', 'SOURCES.json')))
+        anchors = [json.loads(l) for l in open(os.path.join(ROOT, 'properties.jsonl'))]
+        files = set(next(a for a in anchors if a['id'] == prop)['anchors']['files']) | set(getattr(plugin, 'SOURCE_FILES', []))
+        cur = report['extract'].get('sources', {})
+        changed = sorted(f for f in files if cur.get(f) != gold_src.get(f))
+        if changed and tier == 'quick' and os.environ.get('VERIF_NO_ESCALATE') != '1': gen_tier = 'thorough'
+    except Exception:
+        pass
+    report['source_changed'] = changed
+    for line, tag in plugin.cases(gen_tier, rng):
         cases.append((line, tag))
     seen, lines, tags = set(), [], {}
     for line, tag in cases:
@@ -448,6 +461,7 @@ def check2(prop, tier, seed, plugin, report, driver, t0):
             'compared_with_predicate': len([r for r in results if r['impl'] != 'ERR']) if hasattr(plugin, 'check_impl') else 0,
             'samples': [{'line': r['line'][:300], 'impl': r['impl'][:200], 'model': r['model'][:200], 'spec': r['spec'][:200]}
                         for r in (results[:2] + results[len(results) // 2:len(results) // 2 + 2] + results[-2:])],
+            'source_changed_since_golden': report.get('source_changed', []),
             'translator': {'items': report['extract'].get('items', []), 'failed': report['extract'].get('failed', {})},
             'known_findings_reproduced': sorted(known_hits),
             'exhaustive': False,
